@@ -20,7 +20,7 @@ RULE = ("sequences of 1..6 messages of mixed types of one schema (random / empty
         "load(stream, SIZE_DELIMITED) calls return the written sequence and stream.tell() after call i is the i-th frame "
         "boundary computed by the spec codec; (3) the same with a reader whose schema is older (fields deleted); (4) for "
         "EVERY cut point 0..len(stream) each load either raises or returns the i-th written message. "
-        "distinct = distinct (stream bytes, cut) executions; a one-message stream with no cut is the trivial case.")
+        "Writer objects are partly reused (measured, grown in place, written again); frames may hold records of known numbers with non-fitting wire types; a directed stream holds the bundled well-known messages and messages alternating between +0.0 and -0.0. distinct = distinct (stream bytes, cut) executions; a one-message stream with no cut is the trivial case.")
 ASSUMPTIONS = [
     "frame boundaries come from the independent spec-level codec; reference framing = google.protobuf.proto.serialize_length_prefixed",
     "streams are io.BytesIO; a load that raises ends the reading of that stream",
